@@ -281,5 +281,26 @@ def gen():
     out.append(f"def visitorWalkCalls : Nat × Nat := ({len(walk_calls)}, {sum(1 for c in walk_calls if forwards(c))})")
     out.append("/-- read: optimizeconst calls `self.optimizer.visit(node, frame.eval_ctx)` (compiler.py) -/")
     out.append(f"def optimizeconstPassesCtx : Bool := {lbool(oc_passes)}")
+    # has_safe_repr: which values may be written back into generated code as their repr.  The model's `resultSafeRepr`
+    # treats exactly the builtin types as safe; a subclass instance (a namedtuple from groupby, a str subclass) has a repr
+    # that does not rebuild it.  Read: every type test of has_safe_repr is an exact `type(value) in {...}` / `type(value) is T`
+    # (no isinstance), and the sets of types.
+    hs_fn = find_func(compiler, "has_safe_repr")
+    exact_sets, loose = [], []
+    for node in ast.walk(hs_fn):
+        if isinstance(node, ast.Call) and ast.unparse(node.func) in ("isinstance", "issubclass"):
+            loose.append(ast.unparse(node))
+        if isinstance(node, ast.Compare) and ast.unparse(node.left) == "type(value)":
+            op, right = node.ops[0], node.comparators[0]
+            if isinstance(op, ast.In) and isinstance(right, (ast.Set, ast.Tuple, ast.List)):
+                exact_sets.append(sorted(ast.unparse(e) for e in right.elts))
+            elif isinstance(op, ast.Is):
+                exact_sets.append([ast.unparse(right)])
+            else:
+                loose.append(ast.unparse(node))
+    out.append("/-- read: the exact-type tests of has_safe_repr (compiler.py), in source order -/")
+    out.append("def safeReprExactTypes : List (List String) := " + llist(llist(lstr(x) for x in st) for st in exact_sets))
+    out.append("/-- read: type tests of has_safe_repr that are NOT exact (isinstance / issubclass / other comparisons) -/")
+    out.append("def safeReprLooseTests : List String := " + llist(lstr(x) for x in loose))
     out.append("\nend JinjaV.Gen.ExprTables\n")
     return "ExprTables.lean", "\n".join(out)
